@@ -16,7 +16,7 @@ TEXT = {
  "C06": ("proof", "Partial (inheritance of abi_rename). Verus: RenameAttr::{extend,attrs_for_inheritance,is_empty,from_pattern}, ast::Attrs::attrs_for_inheritance, hir::Attrs::for_inheritance against the documented rule; lemma: effective pattern = last non-empty of (module, impl|type, method); the opaque destructor name and Method::from_syn's abi name are built from the type's own rename attribute (statement prefixes)."),
  "C07": ("proof", "Partial (primitive tables). Kani complete-finite: Dart ffi annotations / slice records / allocators and Kotlin JNA types for all 15 primitives have the width, signedness and float kind of the Rust ABI type; ast->hir primitive lowering keeps the primitive; Verus: ReturnType/SuccessType accessors see through Infallible/Fallible/Nullable alike; Dart gen_method_info declares the trailing write parameter exactly for write methods (statement range)."),
  "C08": ("proof", "Partial (the layout routine and its consumers' decisions). Verus, unbounded: struct_field_info offsets/size/align/padding fields/scalar counts == Rust-reference repr(C) for any number of fields (callee abstracted by contract); generate_fields' force-padding decision and the number of padding slots emitted after a field == wasm_abi_quirks rule / layout padding_count (statement fragments); gen_c_to_js_deref_for_type reads every field at base+offset through wrapper structs. Kani complete-finite: primitive and leaf-type layouts == wasm32 ABI and satisfy that callee contract; Kani bounded: whole routine vs oracle for 1..2 (quick) / 1..4 (thorough) fields."),
- "C10": ("proof", "Partial. Verus: ffi_safe_version spelling-independence/idempotence lemmas; lowering maps Option<&/Box Opaque> to an optional pointer and every other Option to DiplomatOption/Nullable, Result only top-level -> Fallible; the C backend gives Option<()>/Result<(),E> write methods the same trailing write parameter and result structs without zero-sized arms, and names the option mirror of string payloads by code-unit width for all three encodings (fmt_optional_type_name); std Option of a non-pointer payload is accepted only where the macro converts it (not nested in Result/Option arms, not as callback return). Kani complete: DiplomatResult/Option wire layout {payload,is_ok}, is_ok == Ok/Some, unit arms occupy no payload, pointer null niche."),
+ "C10": ("proof", "Partial. Verus: ffi_safe_version spelling-independence/idempotence lemmas; the proc macro's return-type rewriting statement (gen_custom_type_method) compiles Option<pointer> as written and every other Option/Result as DiplomatResult with the right conversion; lowering maps Option<&/Box Opaque> to an optional pointer and every other Option to DiplomatOption/Nullable, Result only top-level -> Fallible; the C backend gives Option<()>/Result<(),E> write methods the same trailing write parameter and result structs without zero-sized arms, and names the option mirror of string payloads by code-unit width for all three encodings (fmt_optional_type_name); std Option of a non-pointer payload is accepted only where the macro converts it (not nested in Result/Option arms, not as callback return). Kani complete: DiplomatResult/Option wire layout {payload,is_ok}, is_ok == Ok/Some, unit arms occupy no payload, pointer null niche."),
  "C11": ("proof", "Small partial. Verus, unbounded: Dart is_contiguous_enum and JS gen_enum's is_contiguous flag are true iff discriminant(j) == j for every variant (the index shortcut is value-preserving); the fold step of Kotlin's EnumVariants::new keeps the same invariant; ast::Enum::new assigns explicit-or-previous+1 discriminants (== rustc) for any number of variants."),
  "C12": ("proof", "Kani harness-checked step contract of write_str on the real code (bounded buffer: a bounded stand-in, not counted as proved), fixed-buffer and Rust-owned writers end to end (bounded), accessors (complete); Verus lemma (unbounded number of writes): content == chunks before the first refused growth, no partial chunk, sticky flag."),
  "C13": ("proof", "Partial (evaluation and inheritance). Verus, all depths: satisfies_cfg == denotational semantics of not/any/all/*/auto/name/name=value incl. termination; for_inheritance rules; the gate reports unsupported backend features (incl. 'static slices); lower_all_methods skips exactly the methods disabled for the backend. Kani: `supports = <name>` selects the documented flag for all 24 names and all flag values (complete); backend-name atoms match exactly (all ASCII strings of length <= 4, bounded)."),
